@@ -262,7 +262,7 @@ func VerifC05Tcc() {
 
 	// the same action is prepared once more in the same global transaction (a second
 	// account, say): it is a branch of its own
-	if vrt.Bool("same.action.prepared.again") {
+	if vrt.Param("again", 1) == 1 && vrt.Bool("same.action.prepared.again") {
 		nreg, nlog2 := len(w.regs), len(w.log)
 		_, _ = pa.Prepare(ctx, params)
 		evs2 := w.log[nlog2:]
